@@ -396,7 +396,14 @@ def _sanitize(tree):
     return extra, repl
 
 
+EXTRACTOR_FRESH = 'V_x = extract.MetaExtractor(V_rules, V_trans)'
+EXTRACTOR_SHARED = 'V_x = extract.default_extractor\nV_x.ignore_rules = V_rules\nV_x.translators = V_trans'
+
+
 def _private_rules(fn):
+    """(names of the --extract-private rules, fresh?) -- fresh = the extractor handed to parse_and_group is a NEW
+    MetaExtractor(ignore_rules, translators); not fresh = the shared extract.default_extractor re-configured in place."""
+    loc = _locals_of(fn)
     blocks = [st for st in ast.walk(fn) if isinstance(st, ast.If) and ast.unparse(st.test) == 'args.extract_private']
     if len(blocks) != 1 or len(blocks[0].body) != 1 or blocks[0].orelse:
         raise TableError('unexpected shape of the `if args.extract_private:` block')
@@ -404,15 +411,42 @@ def _private_rules(fn):
     if not (isinstance(st, ast.Assign) and len(st.targets) == 1 and isinstance(st.targets[0], ast.Name) and isinstance(st.value, ast.Tuple)):
         raise TableError('--extract-private does not assign a tuple display to a variable')
     var = st.targets[0].id
-    me = calls_in(fn, 'MetaExtractor')
-    if len(me) != 1 or len(me[0].args) != 2 or me[0].keywords or not isinstance(me[0].args[0], ast.Name) or me[0].args[0].id != var:
-        raise TableError('the tuple assigned under --extract-private is not the first argument of the one MetaExtractor(...) call')
+    # the gen_meta branch ends with the construction of the extractor
+    outer = [b for b in ast.walk(fn) if isinstance(b, ast.If) and blocks[0] in b.body]
+    if len(outer) != 1 or len(outer[0].orelse) != 1:
+        raise TableError('the --extract-private block is not inside the `if gen_meta: ... else: ...` statement')
+    gm = outer[0]
+    i = gm.body.index(blocks[0])
+    tail = gm.body[i + 1:]
+    try:
+        env, _ = _match(tail, EXTRACTOR_FRESH, loc, 'extractor construction')
+        fresh = True
+    except TableError as e1:
+        try:
+            env, _ = _match(tail, EXTRACTOR_SHARED, loc, 'extractor construction')
+            fresh = False
+        except TableError:
+            raise e1
+    if env['V_rules'] != var:
+        raise TableError('the tuple assigned under --extract-private is not the ignore_rules of the extractor')
+    _match(gm.orelse, '%s = extract.minimal_extractor' % 'V_x', loc, 'extractor without meta data')
+    x = env['V_x']
+    # no other write to module-level objects of extract / dcmstack inside main
+    for n in ast.walk(fn):
+        if isinstance(n, ast.Attribute) and isinstance(n.ctx, (ast.Store, ast.Del)):
+            base = n.value
+            ok = (not fresh) and isinstance(base, ast.Name) and base.id == x and n.attr in ('ignore_rules', 'translators')
+            if not ok:
+                raise TableError('main assigns the attribute %s: module / object state written in a way the model does not know' % ast.unparse(n))
+    pg = calls_in(fn, 'parse_and_group')
+    if len(pg) != 1 or len(pg[0].args) < 3 or ast.unparse(pg[0].args[2]) != x:
+        raise TableError('the extractor built above is not the third argument of the one parse_and_group call')
     names = []
     for e in st.value.elts:
         if not (isinstance(e, ast.Attribute) and isinstance(e.value, ast.Name) and e.value.id == 'extract'):
             raise TableError('--extract-private rule is not extract.<name>: %s' % ast.unparse(e))
         names.append(e.attr)
-    return names
+    return names, fresh
 
 
 def _bool(b):
@@ -466,7 +500,7 @@ def emit(src):
 
     nm = _naming(main)
     extra, repl = _sanitize(t)
-    priv = _private_rules(main)
+    priv, extractor_fresh = _private_rules(main)
 
     # ---- nitool
     nt = src.tree(NIT)
@@ -559,6 +593,9 @@ def emit(src):
     o.append('(* true = with --dest-dir the set of generated names is shared by all source directories of the invocation;')
     o.append('   false = it is reset for every source directory *)')
     o.append('Definition names_shared_dest : bool := %s.' % _bool(nm['shared_dest']))
+    o.append('(* true = main builds a new extract.MetaExtractor(ignore_rules, translators); false = it re-configures the shared')
+    o.append('   extract.default_extractor object in place (hidden state) *)')
+    o.append('Definition extractor_fresh : bool := %s.' % _bool(extractor_fresh))
     o.append('(* ignore rules of --extract-private, by function name *)')
     o.append('Definition private_ignore_rule_names : list (list N) := %s.' % clist(cstr(s) for s in priv))
     o.append('(* nitool split: default name  pad(split_width, idx) ++ split_sep ++ basename *)')
